@@ -201,4 +201,301 @@ Proof.
   - right. destruct (stage_node_x g s a) as [(A1 & _) _]. rewrite <- A1. exact H1.
 Qed.
 
+(** the launch loop *)
+Lemma launch_body_k d s : dry c = d -> qinv c g p L0 d s -> X c s -> R2 nobody s ->
+  cleanBS s -> K [] s (ledS s) ->
+  cleanBS (launch_body_gen c g s) /\ K [] (launch_body_gen c g s) (ledS (launch_body_gen c g s)).
+Proof.
+  intros Hd (I & _ & _) Xs Rs Cl Kh.
+  pose proof (launch_body_x c g W s I Xs Rs) as LB. cbv zeta in LB. destruct LB as (_ & _ & SRs & RD & HD).
+  unfold launch_body_gen in *.
+  destruct (ready s) as [|x rest] eqn:Er; [auto|].
+  assert (Hxr : In x (ready s)) by (rewrite Er; left; reflexivity).
+  assert (Hxi : ~ In x (inprog s)) by (intros H; exact (i_dj_ir g s I x H Hxr)).
+  assert (Hxn : ~ In x rest).
+  { pose proof (i_nd_ready g s I) as N. rewrite Er in N. inversion N; assumption. }
+  cbn [tl hd_error] in *.
+  set (s1 := set_ready s rest) in *. change (canceled s1) with (canceled s) in *.
+  destruct (canceled s).
+  - set (s' := cancelled_add x (rec_set_status x CANCELLED s1)) in *.
+    split; [apply (cleanB_frame c g p L0 s s'); [reflexivity|exact Cl]|].
+    rewrite (led_frame c g p L0 s s') by reflexivity.
+    apply (K_grow [] s s'); auto.
+    + apply (sr_ni _ _ SRs).
+    + intros y Hy. left. rewrite Er. right. exact Hy.
+  - assert (C1 : cleanBS s1) by (apply (cleanB_frame c g p L0 s s1); [reflexivity|exact Cl]).
+    assert (L1 : ledS s1 = ledS s) by (apply led_frame; reflexivity).
+    assert (P1 : pre43 c g p L0 x s1).
+    { unfold pre43. rewrite L1. destruct Kh as [K1 K2 K3 K4 K5]. split; [apply K2; auto|].
+      apply mem_false. intros Hdd. destruct (K1 x Hdd) as (_ & B2 & _). contradiction. }
+    destruct (execute_record_k c g p L0 x false s1 C1 P1) as (G1 & G2 & G3).
+    destruct (on_led c g p L0 x s1 _ G2) as (O1 & O2 & O3 & O4 & O5 & O6). rewrite L1 in *.
+    set (s' := execute_record_gen c g x false s1) in *.
+    split; [exact G1|].
+    apply (K_launch x s s' (ledS s) (ledS s')); auto.
+    + apply (sr_ni _ _ SRs).
+    + intros y Hn. unfold s'. rewrite execute_record_inprog by auto. reflexivity.
+    + intros y Hy. rewrite RD in Hy. split; [rewrite Er; right; exact Hy|]. intros ->. contradiction.
+    + assert (GN : ~ In x (inprog s') -> gone s' x).
+      { intros H. split; [apply (HD x eq_refl)|]. split; [exact H|]. rewrite RD. exact Hxn. }
+      destruct G3 as [G3|[G3|[_ G3]]]; [left; exact G3|right; auto|].
+      right. apply GN. rewrite G3. exact Hxi.
+Qed.
+
+Lemma launch_iter_k d n s : dry c = d -> qinv c g p L0 d s ->
+  (throttle c > 0 -> length (inprog s) + n <= throttle c) -> X c s -> R2 nobody s ->
+  cleanBS s -> K [] s (ledS s) ->
+  cleanBS (Nat.iter n (launch_body_gen c g) s) /\
+  K [] (Nat.iter n (launch_body_gen c g) s) (ledS (Nat.iter n (launch_body_gen c g) s)).
+Proof.
+  intros Hd Q TB Xs Rs Cl Kh. induction n as [|n IH]; [cbn; auto|].
+  change (Nat.iter (S n) (launch_body_gen c g) s) with (launch_body_gen c g (Nat.iter n (launch_body_gen c g) s)).
+  assert (TBn : throttle c > 0 -> length (inprog s) + n <= throttle c) by (intros H; specialize (TB H); lia).
+  destruct (IH TBn) as [C1 K1].
+  destruct (launch_iter_spec c g p L0 W d n s Hd Q TBn) as [Qn _].
+  pose proof (launch_iter_x c g W p L0 d n s Hd Q TBn Xs Rs) as LX. cbv zeta in LX. destruct LX as (Xn & Rn & _).
+  apply (launch_body_k d); auto.
+Qed.
+
+Lemma tail_k d s2 : dry c = d -> qinv c g p L0 d s2 -> Thr c s2 -> X c s2 -> R2 nobody s2 ->
+  cleanBS s2 -> K [] s2 (ledS s2) ->
+  let s3 := fold_left (stage_node_gen g) (seq 0 (length g)) s2 in
+  let s4 := Nat.iter (available_gen c s3) (launch_body_gen c g) s3 in
+  cleanBS s4 /\ K [] s4 (ledS s4).
+Proof.
+  intros Hd Q2 T2 X2 R2' Cl Kh. cbv zeta.
+  destruct (stage_fold_spec c g p L0 d (seq 0 (length g)) (fun x Hx => proj1 (In_seq_lt x (length g)) Hx) s2 Q2)
+    as (Q3 & E1 & E2 & E3).
+  destruct (stage_fold_x g (seq 0 (length g)) s2) as [SR3 _].
+  pose proof (stage_fold_ready (seq 0 (length g)) s2) as RD3.
+  set (s3 := fold_left (stage_node_gen g) (seq 0 (length g)) s2) in *.
+  destruct (stage_rel_SR c s2 s3 SR3 X2 R2') as (X3 & R3 & S3).
+  pose proof SR3 as (A1 & A2 & A3 & A4 & A5 & _).
+  assert (AV : throttle c > 0 -> length (inprog s3) + available_gen c s3 <= throttle c).
+  { intros Ht. unfold available_gen. destruct (throttle c =? 0) eqn:E; [apply Nat.eqb_eq in E; lia|].
+    rewrite E1. specialize (T2 Ht). lia. }
+  apply (launch_iter_k d); auto.
+  - apply (cleanB_frame c g p L0 s2 s3 A5). exact Cl.
+  - rewrite (led_frame c g p L0 s2 s3 A5). apply (K_grow [] s2 s3); auto.
+    + intros y. rewrite A1. auto.
+    + intros y. rewrite E1. auto.
+Qed.
+
+Lemma execute_ready_steps_k d s : dry c = d -> qinv c g p L0 d s -> Thr c s -> valid_pin s p = true ->
+  X c s -> R2 nobody s -> cleanBS s -> K [] s (ledS s) -> oksub (ledS s) = [] ->
+  cleanBS (fst (execute_ready_steps_gen c g p s)) /\
+  K [] (fst (execute_ready_steps_gen c g p s)) (ledS (fst (execute_ready_steps_gen c g p s))).
+Proof.
+  intros Hd Q T V Xs Rs ClB Kh Ho. unfold execute_ready_steps_gen.
+  destruct (dry c) eqn:Hdry; cbn [negb]; subst d.
+  - cbn [qcode_eqb]. change (dispatch_gen c g [] s) with s. cbn [fst].
+    apply (tail_k true); auto.
+  - pose proof Q as (I & Cl & Jh).
+    set (e := ECheck (map (lastjob s) (inprog s))).
+    assert (I1 : Inv g (emit e s)) by (eapply Inv_fields; [| | | | | | |exact I]; reflexivity).
+    assert (Cl1 : cleanS (emit e s)).
+    { apply clean_emit. split; [exact Cl|]. cbn [evA e]. apply same_jobs_J; [apply (i_nd_inprog g s I)|apply Jh]. }
+    pose proof (echeck_J c g p s (ledS s) (map (lastjob s) (inprog s)) Jh) as J1.
+    fold e in J1. rewrite <- led_emit in J1.
+    assert (J1' : J false (tpend (if qcode_eqb (qcode p) QOK then reports p else []))
+                    (pfin (if qcode_eqb (qcode p) QOK then reports p else [])) (emit e s) (ledS (emit e s))).
+    { destruct J1 as [Jl Js]. split.
+      - eapply JL_frame; [| | | | |exact Jl]; auto; tauto.
+      - eapply JS_frame; [| |exact Js]; auto; tauto. }
+    clear J1. rename J1' into J1.
+    assert (Xa : X c (emit e s)) by (apply (X_quiet c s); auto).
+    assert (Ra : R2 nobody (emit e s)) by (apply (R2_quiet nobody s); auto).
+    assert (Ca : cleanBS (emit e s)) by (apply cleanB_emit; split; [exact ClB|exact Logic.I]).
+    assert (Ka : K (if qcode_eqb (qcode p) QOK then reports p else []) (emit e s) (ledS (emit e s))).
+    { rewrite led_emit. apply (K_state _ s); auto.
+      apply echeck_K; auto. intros Eq. apply (valid_pin_spec s p V Eq). }
+    assert (NONE : J false (tpend []) (pfin []) (emit e s) (ledS (emit e s)) -> J false none none (emit e s) (ledS (emit e s))).
+    { intros [Jl Js]. split.
+      - eapply JL_ext; [|exact Jl]. intros y _. split; [intros (v & [] & _)|intros []].
+      - eapply JS_ext; [|exact Js]. intros y. split; intros []. }
+    destruct (qcode p) eqn:Eq; cbn [qcode_eqb] in *.
+    + destruct (valid_pin_spec s p V Eq) as [ND RI].
+      pose proof (dispatch_spec c g p L0 W Hdry (reports p) (emit e s) I1 T Cl1 J1 ND RI) as DS.
+      cbv zeta in DS. destruct DS as (I2 & T2 & Cl2 & J2).
+      destruct (dispatch_x c g W p L0 (reports p) (emit e s) Hdry I1 T Cl1 J1 ND RI Xa Ra) as (X2 & R2' & S2).
+      destruct (dispatch_k (reports p) (emit e s) Hdry I1 T Cl1 J1 ND RI Xa Ra Ca Ka) as (C2 & K2).
+      cbn [fst]. apply (tail_k false); auto. split; [exact I2|split; [exact Cl2|exact J2]].
+    + cbn [fst]. apply (tail_k false); auto. split; [exact I1|split; [exact Cl1|exact (NONE J1)]].
+    + cbn [fst]. split; [exact Ca|exact Ka].
+Qed.
+
+(** one iteration of monitor_study, from the boundary form *)
+Lemma poll_k d s : dry c = d -> Inv g s -> Thr c s -> J d none none s L0 -> valid_pin s p = true ->
+  X c s -> R2 nobody s -> KB s L0 ->
+  cleanBS (fst (poll c g s p)) /\ K [] (fst (poll c g s p)) (ledS (fst (poll c g s p))).
+Proof.
+  intros Hd I T Jh V Xs Rs Kb. unfold poll.
+  set (s0 := set_evs (set_subs s (psubs p)) []).
+  assert (Q0 : qinv c g p L0 d s0).
+  { split; [eapply Inv_fields; [| | | | | | |exact I]; reflexivity|]. split; [exact Logic.I|].
+    change (ledS s0) with L0. destruct Jh as [Jl Js]. split.
+    - eapply JL_frame; [| | | | |exact Jl]; auto; tauto.
+    - eapply JS_frame; [| |exact Js]; auto; tauto. }
+  assert (X0 : X c s0) by (apply (X_quiet c s); auto).
+  assert (R0 : R2 nobody s0) by (apply (R2_quiet nobody s); auto).
+  assert (K0 : K [] s0 (ledS s0)).
+  { change (ledS s0) with L0. apply (K_state [] s); auto. apply (KB_K c g); auto. }
+  assert (C0 : cleanBS s0) by exact Logic.I.
+  assert (O0 : oksub (ledS s0) = []) by (change (ledS s0) with L0; apply (kb_oksub _ _ Kb)).
+  destruct (cancel_req p).
+  - destruct (cancel_study_spec c g p L0 d s0 Q0) as [Q1 E1].
+    unfold cancel_study_gen in *.
+    set (e := ECancel (map (lastjob s0) (inprog s0))) in *.
+    set (s0' := set_canceled (emit e s0) true) in *.
+    assert (L1 : ledS s0' = set_cseen L0 true).
+    { rewrite (led_frame c g p L0 (emit e s0) s0') by reflexivity. rewrite led_emit. reflexivity. }
+    assert (X1 : X c s0') by (apply (X_quiet c s0); auto).
+    assert (R1 : R2 nobody s0') by (apply (R2_quiet nobody s0); auto).
+    assert (C1 : cleanBS s0').
+    { apply (cleanB_frame c g p L0 (emit e s0) s0'); [reflexivity|]. apply cleanB_emit. split; [exact C0|exact Logic.I]. }
+    assert (K1 : K [] s0' (ledS s0')).
+    { rewrite L1. apply (K_state [] s0); auto. eapply K_ledger; [exact K0| | | | |]; reflexivity. }
+    assert (O1 : oksub (ledS s0') = []) by (rewrite L1; exact O0).
+    apply (execute_ready_steps_k d); assumption.
+  - apply (execute_ready_steps_k d); auto.
+Qed.
+
 End P8.
+
+(** * The monitor: code 43 *)
+Lemma step_ev_fold43 c g p es : forall m,
+  ~ In 43 (viol m) -> evsB c g p (mb m) es -> ~ In 43 (viol (fold_left (step_ev c g p) es m)).
+Proof.
+  induction es as [|e es IH]; intros m Hv; cbn [fold_left evsB]; [auto|].
+  intros [E1 E2]. apply IH; auto.
+  cbn [step_ev viol]. rewrite in_app_iff. intros [H|H]; [contradiction|].
+  exact (evB_flags c g p (mb m) e E1 H).
+Qed.
+
+Lemma flags_end_43 c g p m rows stat : ~ In 43 (flags_end c g p m rows stat).
+Proof.
+  intros Hin. unfold flags_end in Hin. cbv zeta in Hin.
+  repeat (apply in_app_iff in Hin; destruct Hin as [Hin|Hin]; [apply ck_codes in Hin; discriminate|]).
+  apply ck_codes in Hin. discriminate.
+Qed.
+
+Lemma fold_sadd_if (f : nat -> bool) l : forall d y,
+  In y (fold_left (fun d x => if f x then sadd x d else d) l d) -> In y d \/ (In y l /\ f y = true).
+Proof.
+  induction l as [|a l IH]; intros d y H; cbn [fold_left] in H; [auto|].
+  apply IH in H. destruct H as [H|[H1 H2]]; [|right; split; [right|]; auto].
+  destruct (f a) eqn:E; [|auto]. apply In_sadd in H. destruct H as [->|H]; auto. right. split; [left|]; auto.
+Qed.
+Lemma fold_sadd_unless (f : nat -> bool) l : forall d y,
+  In y (fold_left (fun d x => if f x then d else sadd x d) l d) -> In y d \/ (In y l /\ f y = false).
+Proof.
+  induction l as [|a l IH]; intros d y H; cbn [fold_left] in H; [auto|].
+  apply IH in H. destruct H as [H|[H1 H2]]; [|right; split; [right|]; auto].
+  destruct (f a) eqn:E; [auto|]. apply In_sadd in H. destruct H as [->|H]; auto. right. split; [left|]; auto.
+Qed.
+
+Lemma dead_end_In g m y : In y (dead_end g m) ->
+  In y (dead m) \/ (In y (tdel m) /\ ~ In y (oksub m)) \/ (0 < nsubL m y /\ ~ In y (oksub m)).
+Proof.
+  unfold dead_end. intros H. apply fold_sadd_if in H. destruct H as [H|[_ H]].
+  - apply fold_sadd_unless in H. destruct H as [H|[H1 H2]]; auto. right. left. split; auto. apply mem_false. exact H2.
+  - right. right. apply andb_true_iff in H. destruct H as [H1 H2]. apply Nat.ltb_lt in H1.
+    apply negb_true_iff, mem_false in H2. auto.
+Qed.
+
+Lemma nth_map_zero {A} (l : list A) : forall x, nth x (map (fun _ => 0) l) 0 = 0.
+Proof. induction l as [|a l IH]; intros [|x]; cbn; auto. Qed.
+
+Lemma K_KB c g s L rows : K [] s L -> rows = rows_of s -> KB s (end_base c g L rows).
+Proof.
+  intros [K1 K2 K3 K4 K5] ->. constructor; cbn [end_base dead prev tdel oksub nsub]; auto.
+  - intros x Hx. apply dead_end_In in Hx. destruct Hx as [Hx|[[Hx Ho]|[Hx Ho]]].
+    + destruct (K1 x Hx) as (B1 & B2 & B3). split; [auto|]. split; [|auto]. intros Hi. destruct (B3 Hi) as (v & [] & _).
+    + destruct (K3 x Hx) as (B1 & B2 & B3). split; [auto|]. split; [|auto]. intros Hi. destruct (B3 Hi) as [[]|H]. contradiction.
+    + destruct (K4 x Hx) as [H|H]; [contradiction|exact H].
+  - intros x. unfold nsubL. cbn [nsub end_base]. apply nth_map_zero.
+Qed.
+
+Lemma KB_init g : KB (init g) (base0 g).
+Proof.
+  constructor; cbn; auto.
+  - intros x [].
+  - unfold rows_of. cbn [recs init]. rewrite map_map. reflexivity.
+  - intros x. unfold nsubL. cbn [nsub base0]. apply nth_map_zero.
+Qed.
+
+Lemma KB_req p es s m : KB s (mb m) -> KB (req_state p s) (mb (pre_poll p es m)).
+Proof.
+  intros [B1 B2 B3 B4 B5]. rewrite pre_poll_mb. unfold req_state. destruct (cancel_req p); constructor; auto.
+Qed.
+
+Lemma step_poll_43 c g m p s :
+  WF g -> B c g s m -> KB s (mb m) -> valid_pin s p = true -> ~ In 43 (viol m) ->
+  let s1 := fst (poll c g s p) in
+  let m' := step_poll c g m (p, (rev (evs s1), rows_of s1, snd (poll c g s p))) in
+  KB s1 (mb m') /\ ~ In 43 (viol m').
+Proof.
+  intros W (I & T & Jh & Xs & Rs & Ds & Pv) Kb V Hv. cbv zeta.
+  set (s1 := fst (poll c g s p)). set (r := snd (poll c g s p)).
+  destruct (req_state_inv c g (dry c) p (rev (evs s1)) s m I T Jh V) as (I0 & T0 & J0 & V0).
+  destruct (req_state_x c g p s Xs Rs Ds) as (X0 & R0 & D0 & _ & _).
+  pose proof (KB_req p (rev (evs s1)) s m Kb) as Kb0.
+  set (m0 := pre_poll p (rev (evs s1)) m) in *.
+  destruct (poll_k c g p (mb m0) W (dry c) (req_state p s) eq_refl I0 T0 J0 V0 X0 R0 Kb0) as [C1 K1].
+  rewrite poll_req_state in *. fold s1 in C1, K1.
+  assert (Hv0 : ~ In 43 (viol m0)).
+  { unfold m0, pre_poll. destruct (cancel_req p); [|exact Hv]. cbn [viol]. rewrite in_app_iff.
+    intros [H|H]; [contradiction|]. apply ck_codes in H. discriminate. }
+  cbn [step_poll]. fold m0.
+  destruct (step_ev_fold c g p (rev (evs s1)) m0) as [A _].
+  pose proof (step_ev_fold43 c g p (rev (evs s1)) m0 Hv0 C1) as Bv.
+  set (mm := fold_left (step_ev c g p) (rev (evs s1)) m0) in *.
+  split.
+  - cbn [mb]. apply K_KB; [|reflexivity]. rewrite A. exact K1.
+  - cbn [viol]. rewrite in_app_iff. intros [H|H]; [contradiction|].
+    exact (flags_end_43 c g p (mb mm) (rows_of s1) r H).
+Qed.
+
+Definition famY : list nat := famX ++ [43].
+
+Lemma run_silent3 c g : WF g -> forall ps s m,
+  B c g s m -> KB s (mb m) -> valid_run c g s ps = true -> (forall k, In k famY -> ~ In k (viol m)) ->
+  forall k, In k famY -> ~ In k (viol (fold_left (step_poll c g) (zip ps (run c g s ps)) m)).
+Proof.
+  intros W. induction ps as [|p ps IH]; intros s m Bs Kb V Hv; [exact Hv|].
+  cbn [valid_run] in V. apply andb_true_iff in V. destruct V as [V1 V2].
+  assert (HvX : forall k, In k famX -> ~ In k (viol m)) by (intros k Hk; apply Hv; apply in_app_iff; auto).
+  assert (Hv43 : ~ In 43 (viol m)) by (apply Hv; apply in_app_iff; right; left; reflexivity).
+  pose proof (step_poll_silent2 c g m p s W Bs V1 HvX) as SP. cbv zeta in SP.
+  pose proof (step_poll_43 c g m p s W Bs Kb V1 Hv43) as SQ. cbv zeta in SQ.
+  cbn [run]. destruct (poll c g s p) as [s1 r]. cbn [fst snd] in SP, SQ.
+  destruct SP as (B1 & Hv1). destruct SQ as (Kb1 & Hq1).
+  assert (HvY : forall k, In k famY ->
+     ~ In k (viol (step_poll c g m (p, (rev (evs s1), rows_of s1, r))))).
+  { intros k Hk. apply in_app_iff in Hk. destruct Hk as [Hk|[<-|[]]]; auto. }
+  destruct r; cbn [zip fold_left].
+  2:{ apply IH; auto. }
+  all: destruct ps; cbn [zip fold_left]; exact HvY.
+Qed.
+
+Theorem famY_silent c g ps :
+  wf_graph g = true -> valid_run c g (init g) ps = true ->
+  forall k, In k famY -> ~ In k (viol_of c g ps (run c g (init g) ps)).
+Proof.
+  intros Hw V. unfold viol_of, monitor.
+  apply run_silent3; auto.
+  - apply wf_graph_WF. exact Hw.
+  - apply B_init.
+  - apply KB_init.
+Qed.
+
+Lemma C04_holds c g ps : wf_graph g = true -> valid_run c g (init g) ps = true ->
+  prop_ok 4 c g ps (run c g (init g) ps) = true.
+Proof.
+  intros Hw V. apply prop_ok_of_codes. intros k Hk. apply famY_silent; auto.
+  cbn in *. intuition (subst; auto 30).
+Qed.
+
+Lemma code_silent_Y c g ps k : wf_graph g = true -> valid_run c g (init g) ps = true -> In k famY ->
+  ~ In k (viol_of c g ps (run c g (init g) ps)).
+Proof. intros. apply famY_silent; auto. Qed.
